@@ -54,11 +54,9 @@ Definition ep_kind_of (e : string * string * string * bool * bool) : kind := if 
 Definition mem (s : string) (l : list string) : bool := existsb (String.eqb s) l.
 
 (* OPEN known findings (known_findings/C30.json, signature "unrouted-endpoint:<METHOD route>"):
-   endpoints whose handler never consults the routing decision on the pinned tree *)
-Definition known_unrouted : list string :=
-  [ "POST /api/v1/query/estimate"; "GET /api/v1/measurements"; "GET /api/v1/query/:measurement";
-    "POST /api/v1/query/arrow";
-    "POST /api/v1/import/csv"; "POST /api/v1/import/parquet"; "POST /api/v1/import/lp"; "POST /api/v1/import/tle" ].
+   endpoints whose handler never consults the routing decision.  Empty since /repo 1a7376f
+   routed the import / estimate / measurement / Arrow endpoints (8 findings, now fixed). *)
+Definition known_unrouted : list string := [].
 
 Theorem C30_endpoints_consult_or_known :
   endpoints <> [] /\
